@@ -459,10 +459,29 @@ package restful
 //@ ensures pathAdmitsP(R, p, hv)
 //@ trigger pathAdmits(R, Q, hv), isTokens(Q, p)
 
+// ... and conversely
+//@ lemma C01.tokens-bridge-rev
+//@ props C03
+//@ forall R []string, Q []string, p string, hv bool
+//@ requires isTokens(Q, p) && pathAdmitsP(R, p, hv)
+//@ ensures pathAdmits(R, Q, hv)
+//@ trigger pathAdmitsP(R, p, hv), isTokens(Q, p)
+
+//@ lemma C03.curly-irreflexive
+//@ props C03
+//@ forall x curlyRoute
+//@ ensures !curlyBefore(x, x)
+//@ trigger curlyBefore(x, x)
+
 //@ func (CurlyRouter).SelectRoute
 //@ props C01 C02 C03 C04 C12 C18 C19
 //@ implements iface:RouteSelector.SelectRoute
 //@ uses C01.tokens-bridge
+//@ uses K/C01.tokens-bridge-rev
+//@ uses K/C03.curly-irreflexive
+// C03: no other route of the chosen service that admits the path and passes conditions, method, Content-Type and
+// Accept ranks before the selected one
+//@ ensures K/best-route: err == nil && TrimRightSlashEnabled ==> forall(0, len(selectedService.routes), func(k int) bool { return pathAdmitsP(selectedService.routes[k].pathParts, httpRequest.URL.Path, selectedService.routes[k].hasCustomVerb) && passes(selectedService.routes[k], httpRequest, 3) ==> !curlyBefore(curlyCand(selectedService.routes[k]), curlyCand(*selected)) })
 //@ modifies nothing
 //@ nopanic
 //@ opt opaque wfTemplate wfRouteLists rootAdmits rootScore wfRoot passes countStatic countParams curlyBefore bestIdx pathAdmits pathAdmitsP isTokens
@@ -512,13 +531,6 @@ package restful
 //@ requires isTailTok(t)
 //@ ensures strings.Index(t, ":") != -1 && t[strings.Index(t, ":")+1:len(t)-1] == "*"
 //@ trigger isTailTok(t)
-
-// ... and a well-formed template has it only in the last position
-//@ lemma C04.tail-last
-//@ props C04
-//@ forall R []string, hv bool, k int
-//@ requires wfTemplate(R, hv) && 0 <= k && k < len(R) && isTailTok(effTok(R[k], hv))
-//@ ensures k == len(R)-1
 
 //@ func (defaultPathProcessor).ExtractParameters
 //@ props C02 C04 C14 C18 C19
